@@ -740,12 +740,12 @@ func (obj *SparseReal64Matrix) ITERATOR_FROM(i, j int) *SparseReal64MatrixIterat
   return &r
 }
 func (obj *SparseReal64Matrix) JOINT_ITERATOR(b ConstMatrix) *SparseReal64MatrixJointIterator {
-  r := SparseReal64MatrixJointIterator{obj.ITERATOR(), b.ConstIterator(), -1, -1, nil, nil}
+  r := SparseReal64MatrixJointIterator{obj.ITERATOR(), b.ConstIterator(), -1, -1, nil, nil, false}
   r.Next()
   return &r
 }
 func (obj *SparseReal64Matrix) JOINT3_ITERATOR(b, c ConstMatrix) *SparseReal64MatrixJoint3Iterator {
-  r := SparseReal64MatrixJoint3Iterator{obj.ITERATOR(), b.ConstIterator(), c.ConstIterator(), -1, -1, nil, nil, nil}
+  r := SparseReal64MatrixJoint3Iterator{obj.ITERATOR(), b.ConstIterator(), c.ConstIterator(), -1, -1, nil, nil, nil, false}
   r.Next()
   return &r
 }
@@ -778,13 +778,13 @@ type SparseReal64MatrixJointIterator struct {
   i, j int
   s1 *Real64
   s2 ConstScalar
+  ok bool
 }
 func (obj *SparseReal64MatrixJointIterator) Index() (int, int) {
   return obj.i, obj.j
 }
 func (obj *SparseReal64MatrixJointIterator) Ok() bool {
-  return !(obj.s1 == nil || obj.s1.GetFloat64() == float64(0)) ||
-         !(obj.s2 == nil || obj.s2.GetFloat64() == float64(0))
+  return obj.ok
 }
 func (obj *SparseReal64MatrixJointIterator) Next() {
   ok1 := obj.it1.Ok()
@@ -806,6 +806,9 @@ func (obj *SparseReal64MatrixJointIterator) Next() {
       obj.s2 = obj.it2.GetConst()
     }
   }
+  // the iteration ends when no iterator delivered an element, elements
+  // with value zero must not terminate it
+  obj.ok = obj.s1 != nil || obj.s2 != nil
   if obj.s1 != nil {
     obj.it1.Next()
   }
@@ -840,6 +843,7 @@ func (obj *SparseReal64MatrixJointIterator) Clone() *SparseReal64MatrixJointIter
   r.j = obj.j
   r.s1 = obj.s1
   r.s2 = obj.s2
+  r.ok = obj.ok
   return &r
 }
 func (obj *SparseReal64MatrixJointIterator) CloneJointIterator() MatrixJointIterator {
@@ -858,14 +862,13 @@ type SparseReal64MatrixJoint3Iterator struct {
   s1 *Real64
   s2 ConstScalar
   s3 ConstScalar
+  ok bool
 }
 func (obj *SparseReal64MatrixJoint3Iterator) Index() (int, int) {
   return obj.i, obj.j
 }
 func (obj *SparseReal64MatrixJoint3Iterator) Ok() bool {
-  return !(obj.s1 == nil || obj.s1.GetFloat64() == 0.0) ||
-         !(obj.s2 == nil || obj.s2.GetFloat64() == 0.0) ||
-         !(obj.s3 == nil || obj.s3.GetFloat64() == 0.0)
+  return obj.ok
 }
 func (obj *SparseReal64MatrixJoint3Iterator) Next() {
   ok1 := obj.it1.Ok()
@@ -903,6 +906,9 @@ func (obj *SparseReal64MatrixJoint3Iterator) Next() {
       obj.s3 = obj.it3.GetConst()
     }
   }
+  // the iteration ends when no iterator delivered an element, elements
+  // with value zero must not terminate it
+  obj.ok = obj.s1 != nil || obj.s2 != nil || obj.s3 != nil
   if obj.s1 != nil {
     obj.it1.Next()
   }
